@@ -526,6 +526,8 @@ class Interp:
         h = self.handle(ent, op.get("how", "name"))
         if op.get("which", "updated") == "created":
             h.force_created_at(op.get("time"))
+            if op.get("time") is not None and ent is not self.root:
+                ent.attrs["created_at"] = int(op["time"])     # nothing else ever changes a creation time
         else:
             h.force_updated_at(op.get("time"))
 
